@@ -150,6 +150,7 @@ let () =
                                p_signer = (if signer = "-" then None else Some (nn signer)) })
        | ["K"; h; r; bh; bp] -> do_step (InBlock (nn h, nn r, { b_hash = nn bh; b_parts = nn bp }))
        | ["NP"; h; r] -> do_step (InNilPart (nn h, nn r))
+       | ["KB"; h; r; bp] -> do_step (InBadBlock (nn h, nn r, nn bp))
        | ["V"; peer; ty; h; r; bh; bp; idx; ok] ->
          do_step (InVote (nn peer, { v_type = (if ty = "1" then Prevote else Precommit); v_height = nn h; v_round = nn r;
                                      v_bid = { bh = nn bh; bp = nn bp }; v_idx = nn idx; v_ok = (ok = "1") }))
